@@ -518,6 +518,46 @@ pub fn run_case(tape: &mut Tape, _tier: Tier, _p: &CaseParams) -> CaseOutcome {
     );
     return out;
   }
+  // with stale cached registry metadata the at-once build restarts and sees
+  // the fresh version list for every requirement, while a build on a
+  // non-empty graph cannot restart (only the one package's metadata is
+  // reloaded, earlier selections stay): a `jsr:` specifier that resolved in
+  // one graph and failed in the other is the same visit-order finding
+  if world
+    .registry
+    .packages
+    .values()
+    .any(|p| p.stale_cached_meta.is_some())
+  {
+    let red = |v: &Value| -> serde_json::Map<String, Value> {
+      v.get("serialized")
+        .and_then(|s| s.get("redirects"))
+        .and_then(|r| r.as_object())
+        .cloned()
+        .unwrap_or_default()
+    };
+    let (ri, ra) = (red(incremental), red(at_once));
+    if let Some(k) = ri
+      .keys()
+      .chain(ra.keys())
+      .find(|k| k.starts_with("jsr:") && ri.contains_key(*k) != ra.contains_key(*k))
+    {
+      out.violation(
+        "C19",
+        "partition-equals-at-once",
+        "partition:jsr-version-selection-differs",
+        format!(
+          "{} resolves to {:?} after successive builds {:?} and to {:?} when all roots are built at once (stale cached registry metadata: only the at-once build may restart)",
+          k,
+          ri.get(k),
+          parts,
+          ra.get(k)
+        ),
+        ctx(json!({"spec": k})),
+      );
+      return out;
+    }
+  }
   // entries (and redirect sources) that one of the two graphs has but cannot
   // reach from its roots
   let part_orphans: std::collections::BTreeSet<String> = {
